@@ -91,7 +91,7 @@ def accept_titan(draw):
 
 CORRUPTIONS = ["scheme-other", "no-slashes", "no-scheme", "empty-host", "userinfo", "fragment", "bad-utf8",
                "too-long-crlf", "too-long-nocrlf", "titan-nosize", "titan-badsize", "titan-negsize", "titan-noparams",
-               "titan-userinfo", "titan-fragment"]
+               "titan-userinfo", "titan-fragment", "long-iri-fragment", "long-iri-userinfo"]
 
 
 @st.composite
@@ -143,6 +143,18 @@ def reject_line(draw):
             if draw(st.booleans()):
                 # keep position inside the path so that only the encoding is wrong
                 raw = (url + "/").encode() + b"\xff"
+        elif c in ("long-iri-fragment", "long-iri-userinfo"):
+            # within the 1024-byte limit, but long and written with raw multi-byte UTF-8: whatever the refusal echoes
+            # has fewer characters than bytes
+            n = draw(st.integers(900, 1022))
+            ch = draw(st.sampled_from(["\u00e9", "\u65e5", "\U0001f600"]))
+            sch = draw(st.sampled_from(["gemini", "titan"]))
+            head = f"{sch}://" + ("user@" if c == "long-iri-userinfo" else "") + "example.org/"
+            tail = (";size=3" if sch == "titan" else "") + ("#f" if c == "long-iri-fragment" else "")
+            k = draw(st.integers(1, (n - len(head) - len(tail)) // len(ch.encode())))
+            body = ch * k
+            fill = n - len(head) - len(tail) - len(body.encode())
+            raw = (head + body + "a" * fill + tail).encode()
         elif c in ("too-long-crlf", "too-long-nocrlf"):
             n = draw(st.one_of(st.integers(1025, 1030), st.integers(1031, 3000)))
             pu = urlgen.pad_path(u, n)
@@ -154,7 +166,9 @@ def reject_line(draw):
         else:
             raise AssertionError(c)
     crlf = c != "too-long-nocrlf"
-    if len(raw) + 2 > 1024 and c not in ("too-long-crlf", "too-long-nocrlf"):
+    if c.startswith("long-iri"):
+        pass
+    elif len(raw) + 2 > 1024 and c not in ("too-long-crlf", "too-long-nocrlf"):
         raw = {"fragment": b"gemini://example.org/x#f", "userinfo": b"gemini://u@example.org/"}.get(c, raw[:1000])
         if c not in ("fragment", "userinfo"):
             return draw(reject_line())
@@ -319,6 +333,81 @@ def judge(case, raw, log, tr):
     return ok(**info)
 
 
+# --------------------------------------------------------------------------
+# the same lines through the real TLS stacks (what separates the request line from the handshake is TLS records)
+
+
+def tls_case_st():
+    base = st.one_of(accept_gemini(), accept_titan(), reject_line())
+    return st.tuples(base, st.sampled_from(["stdlib", "pyopenssl", "pyopenssl"]), st.sampled_from(["1.3", "1.3", "1.2"]),
+                     st.lists(st.floats(0.05, 0.95), max_size=2), st.sampled_from(["one-read", "one-read", "separate"])).map(
+        lambda t: {**t[0], "backend": t[1], "tls": t[2], "rec": sorted(t[3]), "deliver": t[4], "followup": ""})
+
+
+class _View:
+    def __init__(self, data):
+        self._d = data
+
+    def written(self):
+        return self._d
+
+
+def run_tls(case: dict):
+    """The request as 1-3 TLS records, sent in the same TCP read as the end of the handshake or one read per record."""
+    import asyncio
+    import ssl
+
+    from vlib import memnet, stacks
+
+    setup_logging()
+    raw = s2b(case["line"]) if case.get("raw") else case["line"].encode("utf-8")
+    data = raw + (b"\r\n" if case["crlf"] else b"") + s2b(case.get("content", ""))
+    ver = ssl.TLSVersion.TLSv1_3 if case["tls"] == "1.3" else ssl.TLSVersion.TLSv1_2
+
+    async def scenario(loop):
+        sim = srvsim.Sim(loop)
+        handler = srvsim.build_handler(sim, {"kind": "value", "status": 20, "meta": "text/gemini", "body": "ok"})
+        mw = srvsim.build_middleware(sim, [{"kind": "allow"}])
+        up = srvsim.build_upload(sim, {"kind": "value", "status": 20, "meta": "text/gemini", "body": "stored"}) \
+            if case["uploads"] else None
+        factory, sslctx = stacks.manual_stack(case["backend"], handler, mw, up)
+        conn = memnet.ServerConn(loop, factory, sslctx, memnet.permissive_client_ctx(minv=ver, maxv=ver))
+        cl = conn.client
+        tail = b""
+        for _ in range(10):
+            cl.step()
+            out = cl.take()
+            if cl.handshaken:
+                tail = out
+                break
+            if out:
+                conn.tcp.feed(out)
+            await vloop.settle(3)
+        cuts = sorted({max(1, min(len(data) - 1, int(f * len(data)))) for f in case["rec"]}) if len(data) > 1 else []
+        recs, prev = [], 0
+        for c in cuts + [len(data)]:
+            if c > prev:
+                cl.obj.write(data[prev:c])
+                recs.append(cl.take())
+                prev = c
+        if case["deliver"] == "one-read":
+            conn.tcp.feed(tail + b"".join(recs))
+        else:
+            for part in ([tail] if tail else []) + recs:
+                conn.tcp.feed(part)
+                await vloop.settle(3)
+        await vloop.settle(6)
+        await conn.pump()
+        await asyncio.sleep(100)
+        await conn.pump()
+        return sim, bytes(cl.plain), len(recs)
+
+    sim, plain, nrec = vloop.run(scenario)
+    v = judge(case, raw, sim.log, _View(plain))
+    v.info["records"] = nrec
+    return v
+
+
 def _nontrivial(case, v):
     if case["cls"] == "reject":
         return True
@@ -370,6 +459,18 @@ def enum_lengths(tier):
 
 
 LANES = [
+    Lane(
+        name="tls-records",
+        run_case=run_tls,
+        strategy=tls_case_st,
+        budget={"quick": 1600, "thorough": 30000},
+        shards={"quick": 16, "thorough": 32},
+        nontrivial=lambda c, v: v.info.get("records", 1) > 1 or c["cls"] == "reject",
+        labels=lambda c, v: _labels(c, v) + [c["backend"], "tls" + c["tls"], c["deliver"], "records:%d" % v.info.get("records", 0)],
+        bucket=lambda c, v: v.clause + ":" + c["backend"],
+        rule="grammar / corruption lines as 1-3 TLS records through both real TLS stacks in memory, delivered in one TCP "
+             "read together with the end of the handshake or record by record",
+    ),
     Lane(
         name="lines",
         run_case=run_line,
